@@ -2519,3 +2519,19 @@ fire("c01-rational-guard-lets-fields-through", ["C01"], RAT,
      "                return object.__setattr__(self, name, value)\n"
      "            raise AttributeError(f\"cannot assign to field '{name}'\")\n",
      "Rational")
+
+fire("c19-polynomial-rsub-swapped", ["C19"], POLY,
+     "    def __rsub__(self, other):\n        return (-self)+other\n",
+     "    def __rsub__(self, other):\n        return (-other)+self\n",
+     "E/Polynomial.__rsub__/signs")
+silent("c19-polynomial-rsub-method-form", ["C19"], POLY,
+       "    def __rsub__(self, other):\n        return (-self)+other\n",
+       "    def __rsub__(self, other):\n        return -(self.__sub__(other))\n")
+fire("c19-rational-sub-adds", ["C19"], RAT,
+     "    def __sub__(self, other):\n        return self.__add__(-other)\n",
+     "    def __sub__(self, other):\n        return self.__add__(other)\n",
+     "E/Rational.__sub__/signs")
+fire("c19-rational-rsub-forgets-negation", ["C19"], RAT,
+     "        return (-self).__radd__(other)\n",
+     "        return self.__radd__(-other)\n",
+     "E/Rational.__rsub__/signs")
